@@ -268,8 +268,13 @@ func ToDate(ctx *expr.Context, input system.Collection, args ...expr.Expression)
 	case system.Date:
 		return system.Collection{value}, nil
 	case system.DateTime:
-		dt := value.String()
-		result := system.MustParseDate(dt[:10])
+		// The date is the part before the 'T'; a partial DateTime (@2020-02T)
+		// converts to the Date of the same precision.
+		dt, _, _ := strings.Cut(value.String(), "T")
+		result, err := system.ParseDate(dt)
+		if err != nil {
+			return system.Collection{}, nil
+		}
 		return system.Collection{result}, nil
 	case system.String:
 		result, err := system.ParseDate(string(value))
